@@ -193,6 +193,10 @@ PROPS['C08']['apalache'] = ['LemmaDifference']
 PROPS['C09']['apalache'] = ['LemmaOverlap']
 PROPS['C10']['apalache'] = ['LemmaAllowsAll']
 PROPS['C04']['apalache'] = [('OrderLaws', 'OrderInt.tla')]
+# C14: every interval over a small endpoint set x every list of up to 3 (thorough: 4) versions of a 7-version universe
+PROPS['C14']['models'].append(dict(name='MC_Lists', module='MC_Lists', constants=dict(MaxList=3, Emit=True, Slice=0, Of=1),
+                                   thorough=dict(MaxList=4), invariants=['InvAnswerExists']))
+PROPS['C14']['rule'] += '; + every interval over {1.0.0-a, 1.0.0, 1.0.1-0} x every list of up to 3 (thorough: 4) versions over {1.0.0-a, 1.0.0-b, 1.0.0, 1.0.0+b, 1.0.1-0, 2.0.0, 0.9.9} (MC_Lists, exhaustive)'
 
 # thorough tier only: two-alternative operands in the interval model (left operand 2 alternatives over a reduced universe),
 # deeper sessions by simulation
